@@ -176,6 +176,15 @@ func genC10(seed int64, tier string) *Scenario {
 		// bias towards parking a writer mid-handler: low stickiness, uniform choice
 		c.Policy = "uniform"
 	}
+	if r.Intn(2) == 0 {
+		// C10's workspaces are tiny, so many more function entries can be scheduling points than
+		// elsewhere: a handler that is not atomic (lock dropped and re-taken, a value read before
+		// the lock) needs another handler to run inside a window of a few calls
+		if c.Knobs == nil {
+			c.Knobs = map[string]int{}
+		}
+		c.Knobs["fnyield"] = 20 + r.Intn(130)
+	}
 	sc.Sched = c
 	return sc
 }
